@@ -114,6 +114,8 @@ def model_value(s):
 
 
 def model_line(l):
+    if l.startswith('lay'):
+        return l
     if l.startswith('grand '):
         return 'grand ' + '|'.join(model_value(x) for x in l[6:].split('|'))
     f = l.split('|')
@@ -278,6 +280,67 @@ def gen_directed(rng):
         j['comms'] = list({c: 1 for c in j['comms'] + [usd]})
     j['accts'] = sorted({p.acct for x in j['xacts'] for p in x['posts']})
     return j
+
+
+def gen_tree_journal(rng):
+    """the display pass: trees 2-5 deep with single-child chains, parents with and without own
+    postings, the own postings of a parent in another state / virtual / under another payee than
+    its descendants', so that a filter removes all of a displayed parent's own postings"""
+    comm = rng.choice(COMMS[:2] + COMMS[4:5])
+    depth = rng.choice([2, 3, 3, 4, 5])
+    chain = tuple(rng.sample(SEGS, depth))
+    accts = [chain[:k] for k in range(1, depth + 1)]
+    # side branches
+    for _ in range(rng.choice([0, 1, 1, 2, 3])):
+        base = rng.choice(accts)
+        accts.append(base[:rng.randrange(0, len(base))] + (rng.choice(SEGS),))
+    accts = sorted(set(accts))
+    other = ('Equity',)
+    own = {a: rng.random() < 0.7 for a in accts}
+    own[chain] = True
+    xacts = []
+    xi = 0
+    for a in accts:
+        if not own[a]:
+            continue
+        for _ in range(rng.choice([1, 1, 2])):
+            st = rng.choice(['u', 'c', 'p'])
+            virt = 1 if rng.random() < 0.25 else 0
+            q = F(rng.randrange(1, 5000), 100)
+            posts = [Post(a, virt, 'u', q, 2, comm)]
+            if not virt:
+                posts.append(Post(other if rng.random() < 0.7 else rng.choice(accts), 0, 'u', -q, 2, comm))
+            else:
+                q2 = F(rng.randrange(1, 900), 100)
+                posts += [Post(other, 0, 'u', q2, 2, comm), Post(rng.choice(accts), 0, 'u', -q2, 2, comm)]
+            xacts.append(dict(date='2020/%02d/%02d' % (rng.randrange(1, 13), rng.randrange(1, 29)),
+                              state=st, payee='%s %d' % (rng.choice(PAYEES), xi), posts=posts))
+            xi += 1
+    rng.shuffle(xacts)
+    return dict(comms=[comm], accts=sorted({p.acct for x in xacts for p in x['posts']}), xacts=xacts)
+
+
+def gen_tree_opts(rng, j):
+    o = Opt()
+    r = rng.random()
+    if r < 0.45:
+        o.state = rng.choice(['cleared', 'uncleared', 'pending'])
+    elif r < 0.6:
+        o.real = True
+    elif r < 0.8:
+        a = rng.choice(j['accts'])
+        o.query = [('acct', rng.choice(a))]
+    elif r < 0.9:
+        o.query = [('payee', rng.choice(PQUERIES))]
+    if rng.random() < 0.2:
+        o.real = True
+    if rng.random() < 0.2:
+        o.depth = rng.choice([1, 2, 3, 4])
+    if rng.random() < 0.25:
+        o.empty = True
+    if rng.random() < 0.15:
+        o.flat = True
+    return o
 
 
 STATE_TXT = {'u': '', 'c': '* ', 'p': '! '}
@@ -491,7 +554,8 @@ def keyfields(k):
     return f if len(f) == 4 else [f[0], '', '', '']
 
 
-BAL_FMT = '%(account)|%(verif_rational(total))|%(verif_rational(scrub(display_total)))|%(verif_rational(amount))\\n'
+BAL_FMT = ('%(account)|%(verif_rational(total))|%(verif_rational(scrub(display_total)))|%(verif_rational(amount))'
+           '|%(options.flat ? "" : depth_spacer)|%(partial_account(options.flat))\\n')
 REG_FMT = ('%(account)|%(verif_rational(amount_expr))|%(verif_rational(total))|%(verif_rational(scrub(display_amount)))'
            '|%(verif_rational(scrub(display_total)))|%(payee)|%(actual)\\n')
 
@@ -646,6 +710,93 @@ def oracle_optset(o, bal, reg, regd_rows, grand_f, viol, case):
             bad('reg-depth-last-total', 'last running total of reg --depth differs from the grand total', rows[-1][2] if rows else {}, grand_f)
 
 
+def read_tree(rows):
+    """the lines of a balance report read back as a tree: two blanks of indentation per level,
+    a line at level l > 0 hangs under the nearest line above it at level l-1 and its full name
+    is that line's name + ':' + its own (partial) name.  -> [(full name, parent index or None, level)], problems"""
+    out, stack, probs = [], [], []
+    for i, r in enumerate(rows):
+        sp, pn = r[4], r[5]
+        if sp.strip(' ') or len(sp) % 2:
+            probs.append(('tree-bad-indentation', 'line %r is indented by %r' % (pn, sp)))
+        lvl = len(sp) // 2
+        if lvl > len(stack):
+            probs.append(('tree-line-without-parent', 'line %r is at level %d but the line above is at level %d' % (pn, lvl, len(stack) - 1)))
+            lvl = len(stack)
+        par = stack[lvl - 1] if lvl > 0 else None
+        full = pn if par is None else out[par][0] + ':' + pn
+        out.append((full, par, lvl))
+        stack = stack[:lvl] + [i]
+    return out, probs
+
+
+def accounts_of(names):
+    ex = set()
+    for n in names:
+        segs = n.split(':')
+        for k in range(1, len(segs) + 1):
+            ex.add(':'.join(segs[:k]))
+    return ex
+
+
+def oracle_tree(o, bal, reg, aux_bal, exist, grand_f, viol, case):
+    """the balance report as displayed (indentation + partial names), read back as a tree, against
+    the register of the same filters"""
+    def bad(key, desc, observed, required):
+        viol.append(dict(key=key, desc=desc, case=case, observed=str(observed), required=str(required)))
+    rows = [r for r in bal if not (r[0] == '' and r[5] == '')]
+    tree, probs = read_tree(rows)
+    for k, d in probs:
+        bad(k, d, '', 'two blanks per displayed ancestor')
+    regd = [(r[0], denote(canon_value(r[1]))) for r in reg]
+    names = [t[0] for t in tree]
+    auxown = [(r[0], denote(canon_value(r[3]))) for r in aux_bal if r[0] != '']
+
+    def unaccounted(a):
+        """an account below a (a = None: anywhere) with own postings that no displayed line below a covers"""
+        for b, own in auxown:
+            if not own:
+                continue
+            if a is not None and (b == a or not under(a, b)):
+                continue
+            if any(under(c, b) and (a is None or (c != a and under(a, c))) for c in names):
+                continue
+            return b
+        return None
+
+    top = {}
+    for i, (full, par, lvl) in enumerate(tree):
+        r = rows[i]
+        tot = denote(canon_value(r[1]))
+        if tot is None:
+            continue
+        if full != r[0]:
+            bad('tree-name-vs-account', 'the line of account %s reads as %s in the tree (indentation %d, name %s)' % (r[0], full, lvl, r[5]), full, r[0])
+        if full not in exist:
+            bad('tree-line-unknown-account', 'the tree shows an account %s that does not exist' % full, full, 'an account of the journal')
+        want, own = {}, {}
+        for ra, amt in regd:
+            if under(full, ra):
+                want = dadd(want, amt)
+            if ra == full:
+                own = dadd(own, amt)
+        if tot != want:
+            bad('tree-line-vs-reg', 'the tree shows %s for %s, the register postings to it and below sum to %s' % (tot, full, want), tot, want)
+        kids = {}
+        for j2, (f2, p2, _) in enumerate(tree):
+            if p2 == i:
+                kids = dadd(kids, denote(canon_value(rows[j2][1])) or {})
+        if not o.flat and tot != dadd(own, kids):
+            if unaccounted(full) is None:
+                bad('tree-parent-total', '%s shows %s but own postings %s + displayed children %s' % (full, tot, own, kids), tot, dadd(own, kids))
+        if lvl == 0:
+            top = dadd(top, tot)
+    tl = [r for r in bal if r[0] == '' and r[5] == '']
+    grand = denote(canon_value(tl[0][1])) if tl else grand_f
+    if not o.flat and grand is not None and top != grand and unaccounted(None) is None:
+        bad('tree-top-level-sum', 'the top-level lines sum to %s, the grand total is %s' % (top, grand), top, grand)
+
+
 # ---------------------------------------------------------------------------------------- run
 
 def one_journal(ctx, res, j, opts, tag):
@@ -655,6 +806,7 @@ def one_journal(ctx, res, j, opts, tag):
     pool = pool_of(j)
     psx = posts_sx(j)
     poolsx = ['pool'] + [[hx(s), p] for s, p in sorted(pool.items())]
+    exist = accounts_of(':'.join(p.acct) for x in j['xacts'] for p in x['posts'])
     # --- implementation: one REPL session per journal
     cmds = []
     plan = []
@@ -679,7 +831,7 @@ def one_journal(ctx, res, j, opts, tag):
     # --- model
     lines = []
     for oi, o in enumerate(opts):
-        want = ['want', 'reg', 'bal', 'own'] + (['col'] if o.depth is not None else [])
+        want = ['want', 'reg', 'bal', 'own', 'lay'] + (['col'] if o.depth is not None else [])
         lines.append(lib.sx(['case', 'c%d' % oi, poolsx, want, o.sx(), ['posts'] + psx]))
         oe = Opt(o.real, o.state, o.query, o.basis, o.lots, False, None, True)
         lines.append(lib.sx(['case', 'e%d' % oi, poolsx, ['want', 'bal', 'own'], oe.sx(), ['posts'] + psx]))
@@ -693,10 +845,10 @@ def one_journal(ctx, res, j, opts, tag):
         case = dict(journal=text, args=o.key(), pool=pool)
         res.evaluations += 1
         f = ent['f']
-        aux_bal, bad1 = parse_rows(blocks[f], 4)
+        aux_bal, bad1 = parse_rows(blocks[f], 6)
         reg, bad2 = parse_rows(blocks[f + 1], 7)
         reg_ne, bad3 = parse_rows(blocks[f + 2], 7)
-        bal, bad4 = parse_rows(blocks[ent['bal']], 4)
+        bal, bad4 = parse_rows(blocks[ent['bal']], 6)
         regd, bad5 = parse_rows(blocks[ent['regd']], 7) if 'regd' in ent else (None, None)
         errs = [b for b in (bad1, bad2, bad3, bad4, bad5) if b]
         if errs or any(b.startswith('CRASH') for b in (blocks[f], blocks[f + 1], blocks[ent['bal']])):
@@ -711,7 +863,7 @@ def one_journal(ctx, res, j, opts, tag):
                 # with rounding on (<Adjustment>/<Revalued> rows present) the last displayed running
                 # total still equals the displayed grand total
                 rr, _ = parse_rows(blocks[f + 3], 7)
-                bb, _ = parse_rows(blocks[f + 4], 4)
+                bb, _ = parse_rows(blocks[f + 4], 6)
                 lastd = denote(canon_value(rr[-1][4])) if rr else {}
                 tl = [r for r in bb if r[0] == '']
                 if tl:
@@ -729,6 +881,7 @@ def one_journal(ctx, res, j, opts, tag):
                 res.count('oracle:rounding-on-checked')
             done_f[f] = g
         oracle_optset(o, bal, reg, regd, done_f[f], viol, case)
+        oracle_tree(o, bal, reg, aux_bal, exist, done_f[f], viol, case)
         res.violations.extend(viol)
         # ---------------- correspondence
         res.traces += 1
@@ -756,6 +909,14 @@ def one_journal(ctx, res, j, opts, tag):
         mbal = [x for x in m if x.startswith('bal ')]
         if ibal != mbal:
             res.disagreements.append(dict(name='C05/bal-rows', case=case, impl=ibal[:8], model=mbal[:8]))
+        ilay = ['lay %s|%d|%s' % (r[0], len(r[4]) // 2, r[5]) for r in bal if r[0] != '']
+        mlay = [x for x in m if x.startswith('lay ')]
+        if ilay != mlay:
+            k = next((i for i, (a, b) in enumerate(zip(ilay, mlay)) if a != b), min(len(ilay), len(mlay)))
+            res.disagreements.append(dict(name='C05/bal-layout', case=case, impl=ilay[max(0, k - 2):k + 2], model=mlay[max(0, k - 2):k + 2]))
+        if not o.flat and 'layok 1' not in m:
+            res.disagreements.append(dict(name='C05/layout-hypothesis', case=case, impl='',
+                                          model='a displayed level is not a printed line (hypothesis of layout_reads_back)'))
         itl = ['grand %s|%s' % (canon_value(r[1]), canon_value(r[2])) for r in bal if r[0] == '']
         mtl = [x for x in m if x.startswith('grand ')] if len(mbal) > 1 else []
         if itl != mtl:
@@ -794,6 +955,12 @@ def one_journal(ctx, res, j, opts, tag):
                          ('lots', bool(o.lots)), ('flat', o.flat), ('depth', o.depth is not None), ('empty', o.empty)):
             if on:
                 res.count('opt:' + name)
+        if not o.flat:
+            posted = {':'.join(p.acct) for x in j['xacts'] for p in x['posts']}
+            hit = {r[0] for r in reg}
+            shown_names = [r[0] for r in bal if r[0] != '']
+            if any(a in posted and a not in hit and any(b != a and under(a, b) for b in shown_names) for a in shown_names):
+                res.count('display:shown-parent-with-all-own-postings-filtered')
         multi = any(canon_value(r[1]).startswith('B:') for r in bal)
         nested = any(under(a[0], b[0]) and a[0] != b[0] for a in aux_bal for b in aux_bal if a[0] and b[0])
         if multi:
@@ -817,12 +984,16 @@ def run(ctx, n_override=None):
     nj = n_override or ctx.scale(400, 2500)
     per = 4
     for ji in range(nj):
-        directed = rng.random() < 0.15
-        j = gen_directed(rng) if directed else gen_journal(rng)
-        res.count('journal:directed' if directed else 'journal:random')
+        kind = rng.random()
+        directed = kind < 0.15
+        treej = 0.15 <= kind < 0.35
+        j = gen_directed(rng) if directed else gen_tree_journal(rng) if treej else gen_journal(rng)
+        res.count('journal:directed' if directed else 'journal:display-tree' if treej else 'journal:random')
         res.count('tree-depth:%d' % max(len(a) for a in j['accts']))
         res.count('commodities:%d' % len(j['comms']))
         opts = [gen_opts(rng) for _ in range(per)]
+        if treej:
+            opts = [gen_tree_opts(rng, j) for _ in range(per)]
         if rng.random() < 0.3:
             opts[0] = Opt()
         one_journal(ctx, res, j, opts, ji)
@@ -841,6 +1012,36 @@ def search(ctx, broken):
     return []
 
 
+def opt_of_key(args):
+    """the Opt a stored `args` string stands for"""
+    o = Opt()
+    words = [w for w in args.split() if w != '(none)']
+    q = []
+    i = 0
+    while i < len(words):
+        w = words[i]
+        if w == '--real':
+            o.real = True
+        elif w in ('--cleared', '--uncleared', '--pending'):
+            o.state = w[2:]
+        elif w == '-B':
+            o.basis = True
+        elif w in ('--lots', '--lot-prices', '--lot-dates', '--lot-notes'):
+            o.lots = {'--lots': 'lots', '--lot-prices': 'prices', '--lot-dates': 'dates', '--lot-notes': 'notes'}[w]
+        elif w == '--flat':
+            o.flat = True
+        elif w == '--empty':
+            o.empty = True
+        elif w == '--depth':
+            i += 1
+            o.depth = int(words[i])
+        else:
+            q.append(('payee', w[1:]) if w.startswith('@') else ('acct', w))
+        i += 1
+    o.query = q or None
+    return o
+
+
 def replay(ctx, obj):
     """re-run the oracle on the stored journal with the stored arguments"""
     res = lib.Result()
@@ -849,17 +1050,20 @@ def replay(ctx, obj):
         return res
     path = ctx.path('replay.dat')
     open(path, 'w').write(case['journal'] + '\n')
-    args = case.get('args', '')
-    words = [w for w in args.split() if w != '(none)']
-    query = [w for w in words if not w.startswith('-') and not w.isdigit()]
-    filt = [w for w in words if w in ('--real', '--cleared', '--uncleared', '--pending', '-B', '--lots', '--lot-prices', '--lot-dates', '--lot-notes')]
-    cmds = [cmdline(['bal', '--empty', '--now', NOW] + filt + ['--format', BAL_FMT] + query),
-            cmdline(['reg', '--empty', '--no-rounding', '--now', NOW] + filt + ['--format', REG_FMT] + query)]
+    o = opt_of_key(case.get('args', ''))
+    cmds = [cmdline(['bal', '--empty', '--now', NOW] + o.filter_args() + ['--format', BAL_FMT] + o.query_args()),
+            cmdline(['reg', '--empty', '--no-rounding', '--now', NOW] + o.filter_args() + ['--format', REG_FMT] + o.query_args()),
+            cmdline(['bal', '--now', NOW] + o.bal_args() + ['--format', BAL_FMT] + o.query_args()),
+            'accounts']
     blocks = lib.run_repl(path, cmds)
-    aux_bal, _ = parse_rows(blocks[0], 4)
+    aux_bal, _ = parse_rows(blocks[0], 6)
     reg, _ = parse_rows(blocks[1], 7)
+    bal, _ = parse_rows(blocks[2], 6)
+    exist = accounts_of(l.strip() for l in blocks[3].split('\n') if l.strip())
     viol = []
-    oracle_filterset(None, '', aux_bal, reg, viol, case)
+    g = oracle_filterset(None, '', aux_bal, reg, viol, case)
+    oracle_optset(o, bal, reg, None, g, viol, case)
+    oracle_tree(o, bal, reg, aux_bal, exist, g, viol, case)
     for v in viol:
         print('replay: %s: %s (observed %s, required %s)' % (v['key'], v['desc'], v['observed'], v['required']))
     res.violations.extend(v for v in viol if v['key'].split(':')[0] == obj.get('key', '').split(':')[0])
